@@ -21,6 +21,9 @@ func init() {
 }
 
 func runC06(c *eng.Ctx, thorough bool) {
+	// ---- C06.7 a token whose lease does not exist is refused and revoked by lookup (the reader-side
+	// checks shared with C02.2): only a non-expiring root token is usable without a lease — seed C06-b
+	tokenLiveness(c, "C06.7")
 	batch, okb := c.P.ConstValue("logical.TokenTypeBatch")
 	service, oks := c.P.ConstValue("logical.TokenTypeService")
 	if !okb || !oks {
